@@ -32,7 +32,16 @@ BANNED = {'random', 'time', 'datetime', 'secrets', 'uuid', 'os', 'numpy.random'}
 
 
 def jobs(tier):
-    return [(c, tier) for c in MESH_CLASSES]
+    out = [(c, tier) for c in MESH_CLASSES]
+    if tier != 'quick':
+        # thorough tier: concrete small grids (down to one cell per axis) with symbolic data
+        from ..model import DIM as _DIM
+        for c in MESH_CLASSES:
+            if _DIM[c] == 1:
+                continue        # the 1-D means are written as loops with a data-dependent branch: analysable only as symbolic map-loops
+            for sz in F.QUICK_SMALL_SIZES[_DIM[c]]:
+                out.append((c, tier, sz))
+    return out
 
 
 def frozen_in(obj):
@@ -44,13 +53,15 @@ def frozen_in(obj):
 
 
 def job(args):
-    cls, tier = args
+    cls, tier = args[:2]
+    sizes = args[2] if len(args) > 2 else None
     sm = SourceModel()
     obs, samples, units = [], [], set()
+    szt = f" sizes={sizes}" if sizes else ''
 
     def ob(rule, construct, ok, detail='', loc=''):
-        obs.append(dict(rule=rule, construct=construct, ok=bool(ok), detail=(f"[{cls}] " + str(detail))[:1200], loc=loc, nontrivial=True))
-    w = World(sm, cls)
+        obs.append(dict(rule=rule, construct=construct, ok=bool(ok), detail=(f"[{cls}{szt}] " + str(detail))[:1200], loc=loc, nontrivial=True))
+    w = World(sm, cls, sizes=sizes)
     bc = w.boundary_conditions()
     phi = w.cell_variable('phi', bc)
     u, uu, D = w.face_variable('u'), w.face_variable('uu'), w.face_variable('D')
@@ -91,7 +102,7 @@ def job(args):
     # Z1d: the same for a variable whose change-tracking flags are raised (value edited in place / boundary condition edited,
     # no solve yet): a builder is a function of the values it is given - it neither rebinds attributes of its argument nor
     # recomputes its ghost layer nor clears its flags
-    wd = World(sm, cls)
+    wd = World(sm, cls, sizes=sizes)
     for fn_mod, fn, mk in [('calculus', 'gradientTerm', lambda p, v: (p,)), ('calculus', 'gradientTermFixedBC', lambda p, v: (p,)),
                            ('averaging', 'linearMean', lambda p, v: (p,)), ('averaging', 'arithmeticMean', lambda p, v: (p,)),
                            ('averaging', 'geometricMean', lambda p, v: (p,)), ('averaging', 'harmonicMean', lambda p, v: (p,)),
